@@ -45,6 +45,9 @@ def ite_(c, a, b):
     if isinstance(c, BoolSym) or isinstance(a, Sym) or isinstance(b, Sym):
         if isinstance(c, (bool, np.bool_)):
             return a if c else b
+        d = ctx.decide(c) if isinstance(c, BoolSym) else None  # the current facts stay assumptions of the clause
+        if d is not None:
+            return a if d else b
         return ite(c, a, b)
     return a if c else b
 
@@ -169,13 +172,14 @@ class SymK(KBase):
         self.fields[name] = v
         return v
 
-    def cell(self, shape, name="c"):
+    def cell(self, shape, name="c", margin=0):
+        """Skolem cell: fresh integers with margin <= c_a < n_a - margin."""
         self._n += 1
         c = []
         for a, n in enumerate(shape):
             v = Sym.I(f"{name}{self._n}_{a}")
-            ctx.assume(v >= 0)
-            ctx.assume(v < n)
+            ctx.assume(v >= margin)
+            ctx.assume(v < n - margin)
             c.append(v)
         return tuple(c)
 
@@ -226,6 +230,15 @@ class SymK(KBase):
         else:
             goal = BoolSym(("eq", d.key())) if not d.is_const() else BoolSym.const(False)
         self.ensures(clause, goal, when, props, note)
+
+    def signature(self, clause, lhs, rhs, when=True, props=None):
+        """characterisation of a RECORDED finding's behaviour (known_findings.json `signature`): not
+        a property obligation; a known finding is only accepted while its signature is proved, so a
+        different defect at the same obligation is still reported."""
+        n = len(self.obligations)
+        self.ensures_eq(clause, lhs, rhs, when, props)
+        for o in self.obligations[n:]:
+            o.kind = "signature"
 
     def unchanged(self, clause, arr, props=None):
         """whole array bit-identical to its initial content (frame)."""
